@@ -43,7 +43,7 @@ def main():
     for j in jobs:
         prop_, idx, rc, info = run_one(*j)
         desc = "clean copy" if j[2] is None else j[2].get("desc", "")
-        ok = (rc == 0) if j[2] is None else (rc == 1)
+        ok = (rc == 0) if j[2] is None else (rc == j[2].get('expect', 1))
         print(f"{'OK  ' if ok else 'MISS'} {prop_} #{idx} rc={rc} {desc} :: {info[:300]}")
 
 
